@@ -13,10 +13,11 @@ CHECKS = {
             "(21 capacities x 3 payload kinds, drain-and-refill leak probes); held on the executions counted in the evidence.",
             "trusts the reference model in harness/contmon.cpp and the compiler",
             "runtime monitoring: reference-model comparison after every operation on seeded random histories"),
-    "C13": ("contmon",
+    "C13": ("contmon+widemon",
             "Bit streams of every capacity 1..255 compared bit-for-bit with a reference bit vector after every write and on "
             "read-back; every (start offset, width, 0/ones/walking-bit) single-field case enumerated; bitWidth compared with "
-            "clz on 2^24 sampled arguments (quick) / all 2^32 arguments (thorough).",
+            "clz on 2^24 sampled arguments (quick) / all 2^32 arguments (thorough); streams opened at arbitrary cursors and reader/writer interleaved on one buffer; "
+            "last clause: every state index of machines of 1..255 states saved with the width the machine derived and loaded back.",
             "trusts the reference bit vector and __builtin_clz",
             "runtime monitoring: reference-model comparison; exhaustive enumeration of single-field cases and bitWidth arguments"),
     "C19": ("cfgmatrix",
@@ -42,7 +43,7 @@ ENGINES = [
 
 FSM_NOTE = ("trusts the harness's own shadow model (harness/fsm_track.hpp) which is built only from the harness's actions and from what callbacks, "
             "control objects, logger records and public observers show; exploration is random/enumerative, so behaviours needing longer or rarer "
-            "histories than generated are not seen; N <= 8 states")
+            "histories than generated are not seen; behavioural monitors run on machines of up to 32 states (plan firing, dispatch and serialization also on 4..255 states in the wide engines)")
 FSM_TECH = "runtime monitoring: online trace monitors inside instrumented user callbacks + per-call oracles at API boundaries, on seeded random histories"
 
 def fsm(text, tech=FSM_TECH, note=FSM_NOTE):
@@ -51,7 +52,7 @@ def fsm(text, tech=FSM_TECH, note=FSM_NOTE):
 CHECKS.update({
     "C01": fsm("enter/exit pairing automaton per instance, advanced on every lifecycle delivery and compared with activeStateId()/isActive(i)/isActive() inside "
                "every callback and after every API call (update, react, query, change*, immediate*, plan edits, reports, save/load, replay, enter/exit, copy, "
-               "destruction, type-form and id-form calls) over 22 machine configurations (1..32 states, limits 1..255, capacities 1..254, five context kinds, seven payload kinds, four alias orders); held on the histories counted in the evidence."),
+               "destruction, type-form and id-form calls) over 36 machine configurations (1..32 states, limits 1..255, capacities 1..254, five context kinds, seven payload kinds, alias orders, state classes defining all/none/some callbacks, virtual injections, const callbacks), with relocation by move construction and copies snapshotted inside callbacks; the configured activation mode is checked for all 120 alias orders; held on the histories counted in the evidence."),
     "C02": fsm("per processing call: the request each guard round evaluates must be the latest one issued (harness-tracked), the applied exit/enter/reenter must be "
                "exactly that of the last surviving round, requests change nothing when made (full observer comparison), nothing is applied outside processing points."),
     "C03": fsm("structure of every guard round (exit guard of the active state, then entry guard of the destination unless cancelled; pendingTransition = request under "
@@ -70,20 +71,22 @@ CHECKS.update({
                "previousTransition() likewise; payload-free requests must expose none; six payload types (1, 3, 12, 8(double), 32 aligned 16, 64 bytes)."),
     "C08": fsm("plan-step window per cycle: fires (logger records not caused by the harness, or plan difference when no logger) must be legal (origin active, success "
                "outstanding, nothing of another origin ahead), the plan afterwards = plan before minus fired tasks in order, reports consumed; converse: head task of a "
-               "succeeding active state must fire."),
+               "succeeding active state must fire; on machines of 4..255 states every state is taken as the origin of a payload task (wideplan)."),
     "C09": fsm("planSucceeded/planFailed deliveries checked against outstanding reports, plan emptiness, 'task added since activation', one per cycle, no fire with "
                "planFailed, plan empty afterwards, converse for failure; instances are placement-constructed over 0x00/0xFF/0x01/0xAA/0x55/random memory."),
-    "C10": ("contmon+fsmmon",
+    "C10": ("contmon+fsmmon+wideplan",
             "TaskListT against a slot model after every operation (21 capacities x 3 payload kinds, leak probes) and, on real machines, Plan/CPlan iteration, first()/last()/bool, "
             "append results at and below capacity, iterator removal while iterating, clear, consumption by firing, outcome clearing and clear-then-refill leak probes compared "
-            "with the harness's list after every edit and at every observation point.",
+            "with the harness's list after every edit and at every observation point (three handle kinds: Plan, const Plan, CPlan); the capacity is the one the program configured "
+            "(all 120 alias orders); machines of 4..255 states: fill, iterator removal, refill and remove-one/append-one churn at full capacity.",
             "trusts the reference models in harness/contmon.cpp and harness/fsm_track.hpp", 
             "runtime monitoring: reference-model comparison after every operation (containers) + online plan read-back in instrumented callbacks"),
     "C11": fsm("previousTransition() after every call = the applied survivor (origin, destination, payload) or empty; a replica with hostile guards is driven only by "
                "replayEnter/replayTransition with those destinations and compared after every step; replayTransition(INVALID) must change nothing."),
     "C12": fsm("save() of the authority (observers and canary bytes unchanged, no bits beyond capacity) loaded into a loader put in an arbitrary state (incl. inactive, with "
                "outstanding request/plan, hostile guards): exact exit/enter/reenter trace, resulting activity, canonical bytes per activity. (All pairs for larger N: see C14's engine once built.)"),
-    "C15": fsm("for every delivery to a state with k=0..3 injections: each injection and the state exactly once, I1..Ik,S for entry-type callbacks and S,Ik..I1 for exit-type ones."),
+    "C15": fsm("for every delivery to a state with k=0..3 injections: each injection and the state exactly once, I1..Ik,S for entry-type callbacks and S,Ik..I1 for exit-type ones; "
+               "also with state classes that leave callbacks out (the injection then runs alone, exactly once) and with injections whose callbacks are virtual."),
     "C16": fsm("with a recording logger: every delivery announced by exactly one method record before any user code, every record followed by its delivery, one matching "
                "record per changeTo/cancel/succeed/fail; differential: identical decision streams with logging compiled out / in / verbose and logger attached "
                "throughout / never / toggled must give identical per-history digests.",
@@ -97,17 +100,19 @@ CHECKS.update({
                tech="sanitizers (ASan, UBSan), valgrind memcheck, allocation counters over the monitored workloads",
                note="a clean run is 'no report on these executions', not memory safety; N=255 machines and container extremes are covered by the C14/C20/C13 engines"),
 })
-CHECKS["C14"] = ("widemon",
+CHECKS["C14"] = ("widemon+fsmmon",
     "one machine per size: quick = 22 sizes around powers of two up to 255 (9 of them also with a root head), thorough = every N in 1..255; stateId<T>()==position "
     "is a static_assert over all states; at run time every k < N is the destination of changeTo+update / react / query / immediate self transition / "
     "replayTransition in three visiting orders and the exact callback sequence, control.stateId(), access<T>() identity and activeStateId()/isActive(j) are compared.",
-    "trusts the expected sequences in harness/widemon.cpp; behaviour inside callbacks is trivial here (the behavioural monitors run on N <= 8)",
+    "trusts the expected sequences in harness/widemon.cpp; behaviour inside callbacks is trivial there; the behavioural runs (N <= 32, random histories) add: no callback of a state that was neither left nor addressed",
     "runtime monitoring: exhaustive enumeration over (N, k) with exact callback-sequence and object-identity comparison")
 CHECKS["C12"] = ("fsmmon+widemon",) + CHECKS["C12"][1:]
 CHECKS["C12"] = (CHECKS["C12"][0], CHECKS["C12"][1].replace("(All pairs for larger N: see C14's engine once built.)",
     "widemon adds every (saver activity, loader activity) pair incl. inactive for the sampled sizes (all pairs for N <= 33 in quick, for every N in 1..255 in thorough)."),
     CHECKS["C12"][2], "runtime monitoring: online trace monitors on random histories + exhaustive enumeration of (saver, loader) pairs per machine size")
-ENGINES.append({"name": "widemon", "path": "harness/widemon.cpp, vlib/wide.py", "serves_properties": ["C14", "C12"], "kind_free_text": "one generated machine per state count 1..255"})
+ENGINES.append({"name": "widemon", "path": "harness/widemon.cpp, vlib/wide.py", "serves_properties": ["C14", "C12", "C13", "C18"], "kind_free_text": "one generated machine per state count 1..255"})
+ENGINES.append({"name": "wideplan", "path": "harness/wideplan.cpp, vlib/wide.py", "serves_properties": ["C08", "C09", "C10"], "kind_free_text": "plans on machines of 4..255 states, every state as origin, capacities below/above the state count"})
+ENGINES.append({"name": "cfgorder", "path": "harness/cfgorder.cpp, harness/cfg_orders.inc", "serves_properties": ["C01", "C04", "C06", "C07", "C10"], "kind_free_text": "the five configuration aliases chained in all 120 orders"})
 ENGINES.append({"name": "fsmmon", "path": "harness/fsmmon.cpp (+fsm_*.hpp), vlib/fsm.py", "serves_properties": ["C01","C02","C03","C04","C05","C06","C07","C08","C09","C10","C11","C12","C15","C16","C17","C18"],
                 "kind_free_text": "instrumented machine configurations driven by seeded/enumerated histories with online trace monitors"})
 
